@@ -383,7 +383,9 @@ def method_body(prog, mid, it, m, calls, reject=None):
                 else:
                     stmts += '{ let __r = %s; dv_log(format!("cbret %d {} %s %d {}", __k, %s)); } ' % (call, mid, q[0], j, rs_ser(prog, q[1][2], "__r"))
         if wparam:
-            stmts += "".join("core::fmt::Write::write_str(%s, %s).unwrap(); " % (wparam, rs_str(ch)) for ch in c["write"]["chunks"])
+            # (a one-character chunk goes through write_char, what `write!(w, "{}", some_char)` and padding use)
+            stmts += "".join(("core::fmt::Write::write_char(%s, '\\u{%x}').unwrap(); " % (wparam, ord(ch))) if len(ch) == 1 else
+                             ("core::fmt::Write::write_str(%s, %s).unwrap(); " % (wparam, rs_str(ch))) for ch in c["write"]["chunks"])
         if m["ret"] is None:
             arms.append("%d => { %s }" % (k, stmts))
         else:
